@@ -3,6 +3,7 @@
 import json, sys
 pid = sys.argv[1]
 wt = sys.argv[2]
+extra = sys.argv[3] if len(sys.argv) > 3 else ''
 for l in open('/verif/properties.jsonl'):
     p = json.loads(l)
     if p['id'] == pid:
@@ -24,6 +25,7 @@ Task: produce TWO independent, different source changes ("mutants") to dicom-rs,
   (c) still passes the existing test suite of the affected crates (run `cargo test --offline -p <crate>` for every crate you touched and every crate whose tests exercise the code you touched; tests that need downloaded sample files fail offline both before and after your change - ignore exactly those that also fail on the unmodified tree),
   (d) is *subtle*: it must need something specific to manifest - an unusual input (a particular VR, length, boundary value, nesting, combination of options), a multi-step sequence of operations, or two cooperating sites that each look fine alone. It must NOT be something ordinary use or the first simple example would expose at once. Think of realistic programming mistakes: an off-by-one at a boundary, a wrong branch for one rare variant, a swapped pair of fields for one case, a missing pad/flush/update on one path, a condition that is slightly too broad or too narrow.
 The two mutants should be in different places / exercise different aspects of the property.
+{extra}
 
 For each mutant k in (1, 2) deliver, inside {wt}/deliver/m<k>/ :
   - patch.diff : `git diff` of the change against the worktree's HEAD (only the mutant, nothing else),
